@@ -85,12 +85,14 @@ Definition ab_take_vec (k : kind) (b : abuf) : list N * list tok :=
 Definition ab_drop (k : kind) (b : abuf) : list tok :=
   let (v, t) := ab_take_vec k b in t ++ drop_vals k v.
 
-(** ** The ownership ledger (ghost): lowered heap buffers that are live.
-    [lg_w]: created by [lower] on the writer side; [lg_r]: created by the host when it stores an item
-    into a reader's buffer; [lg_areas]: live Cleanup areas; [lg_err]: a release of something that is
-    not live (double free / lift of garbage). Only [KLists] payloads own heap buffers. *)
-Record ledger := mkLg { lg_w : list N; lg_r : list N; lg_areas : nat; lg_err : bool }.
-Definition lg_empty := mkLg [] [] 0 false.
+(** ** The ownership ledger (ghost), one per end of the stream.
+    [lg_live]: lowered heap buffers that are live — on the writer side created by [lower] and
+    released by [dealloc_lists] or consumed by [lift]; on the reader side created by the host when it
+    stores an item into the reader's buffer and consumed by [lift].  Only [KLists] payloads own heap
+    buffers.  [lg_areas]: live Cleanup areas.  [lg_err]: a release of something that is not live
+    (double free / lift of garbage / area released twice). *)
+Record ledger := mkLg { lg_live : list N; lg_areas : nat; lg_err : bool }.
+Definition lg_empty := mkLg [] 0 false.
 
 Fixpoint remove1 (x : N) (l : list N) : option (list N) :=
   match l with
@@ -99,35 +101,41 @@ Fixpoint remove1 (x : N) (l : list N) : option (list N) :=
               else match remove1 x r with Some r' => Some (y :: r') | None => None end
   end.
 
-Definition lg_tok (k : kind) (t : tok) (g : ledger) : ledger :=
-  match t with
-  | KLower id => if has_lists k then mkLg (lg_w g ++ [id]) (lg_r g) (lg_areas g) (lg_err g) else g
-  | KDealloc id | KLiftW id =>
-      if has_lists k then
-        match remove1 id (lg_w g) with
-        | Some w => mkLg w (lg_r g) (lg_areas g) (lg_err g)
-        | None => mkLg (lg_w g) (lg_r g) (lg_areas g) true
-        end
-      else g
-  | KTr ids => if has_lists k then mkLg (lg_w g) (lg_r g ++ ids) (lg_areas g) (lg_err g) else g
-  | KLiftR id =>
-      if has_lists k then
-        match remove1 id (lg_r g) with
-        | Some r => mkLg (lg_w g) r (lg_areas g) (lg_err g)
-        | None => mkLg (lg_w g) (lg_r g) (lg_areas g) true
-        end
-      else g
-  | KAreaNew => mkLg (lg_w g) (lg_r g) (S (lg_areas g)) (lg_err g)
-  | KAreaFree =>
-      match lg_areas g with
-      | S n => mkLg (lg_w g) (lg_r g) n (lg_err g)
-      | O => mkLg (lg_w g) (lg_r g) O true
-      end
-  | _ => g
+Definition lg_add (k : kind) (ids : list N) (g : ledger) : ledger :=
+  if has_lists k then mkLg (lg_live g ++ ids) (lg_areas g) (lg_err g) else g.
+Definition lg_release (k : kind) (id : N) (g : ledger) : ledger :=
+  if has_lists k then
+    match remove1 id (lg_live g) with
+    | Some l => mkLg l (lg_areas g) (lg_err g)
+    | None => mkLg (lg_live g) (lg_areas g) true
+    end
+  else g.
+Definition lg_area_new (g : ledger) : ledger := mkLg (lg_live g) (S (lg_areas g)) (lg_err g).
+Definition lg_area_free (g : ledger) : ledger :=
+  match lg_areas g with
+  | S n => mkLg (lg_live g) n (lg_err g)
+  | O => mkLg (lg_live g) O true
   end.
 
-Definition lg_toks (k : kind) (ts : list tok) (g : ledger) : ledger :=
-  fold_left (fun g t => lg_tok k t g) ts g.
+(** Effect of one observed token on the ledger of the writer end / of the reader end. *)
+Definition lg_tok_w (k : kind) (g : ledger) (t : tok) : ledger :=
+  match t with
+  | KLower id => lg_add k [id] g
+  | KDealloc id | KLiftW id => lg_release k id g
+  | KAreaNew => lg_area_new g
+  | KAreaFree => lg_area_free g
+  | _ => g
+  end.
+Definition lg_tok_r (k : kind) (g : ledger) (t : tok) : ledger :=
+  match t with
+  | KTr ids => lg_add k ids g
+  | KLiftR id => lg_release k id g
+  | KAreaNew => lg_area_new g
+  | KAreaFree => lg_area_free g
+  | _ => g
+  end.
+Definition lg_toks_w (k : kind) (ts : list tok) (g : ledger) : ledger := fold_left (lg_tok_w k) ts g.
+Definition lg_toks_r (k : kind) (ts : list tok) (g : ledger) : ledger := fold_left (lg_tok_r k) ts g.
 
 (** ** Return codes ([ReturnCode::decode], crates/guest-rust/src/rt/async_support.rs) *)
 Local Open Scope N_scope.
